@@ -80,7 +80,7 @@ func runOnce(in map[string]interface{}) map[string]interface{} {
 				err = exec.WrapSyntaxError(parser, exec.MODULE_NAME_MAIN, perr)
 				return
 			}
-			vm = r.InitVM(exec.GlobalValues)
+			vm = r.InitVM(exec.NewGlobalValues())
 			vm.LoadExternalLibs(libs())
 			elem, err = exec.EvalMainModule(vm, program, inputs)
 			if err != nil {
@@ -136,9 +136,13 @@ func register() {
 		src := hlib.RunesOfCps(in["src"])
 		parser := syntax.NewParser(src, zh.NewParserZH())
 		program, perr := parser.Compile()
-		if perr != nil {
-			return map[string]interface{}{"kind": "error", "err": hlib.DumpError(exec.WrapSyntaxError(parser, exec.MODULE_NAME_MAIN, perr))}
+		starts := []int{}
+		for _, li := range parser.GetLexer().Lines {
+			starts = append(starts, li.StartIdx)
 		}
-		return map[string]interface{}{"kind": "tree", "tree": syntax.StringifyAST(program)}
+		if perr != nil {
+			return map[string]interface{}{"kind": "error", "lines": starts, "err": hlib.DumpError(exec.WrapSyntaxError(parser, exec.MODULE_NAME_MAIN, perr))}
+		}
+		return map[string]interface{}{"kind": "tree", "lines": starts, "tree": syntax.StringifyAST(program)}
 	}
 }
